@@ -15,7 +15,8 @@
 // Implementation-level oracle (no model): no panic, crash or timeout; every *ParseError has
 // 0 <= Offset <= len(input), Line = 1 + number of '\n' before Offset, Col = 1 + Offset - (start of
 // that line); returned messages are valid; bytes allocated by one call <= allocBound(len);
-// a reused parser instance gives the result of a fresh one.
+// a reused parser instance gives the result of a fresh one. An over-bound allocation measurement is
+// repeated in the child (GC first) and the minimum counts; the histogram records the repetitions.
 package main
 
 import (
@@ -45,10 +46,11 @@ type kase struct {
 }
 
 type result struct {
-	out   string // canonical outcome, or "CRASH stack|oom|other", "TIMEOUT"
-	alloc uint64
-	ns    int64
-	same  bool
+	out    string // canonical outcome, or "CRASH stack|oom|other", "TIMEOUT"
+	alloc  uint64 // bytes allocated by the call (minimum over the re-measurements, if any)
+	ns     int64
+	same   bool
+	remeas int // how many times the child repeated an over-bound allocation measurement
 }
 
 type limits struct {
@@ -154,13 +156,14 @@ func runChunk(rest []kase, lim limits, tmp string) ([]result, bool, string, erro
 			case strings.HasPrefix(line, "B "):
 				begun, _ = strconv.Atoi(line[2:])
 			case strings.HasPrefix(line, "R "):
-				f := strings.SplitN(line, " ", 6)
-				if len(f) != 6 {
+				f := strings.SplitN(line, " ", 7)
+				if len(f) != 7 {
 					continue
 				}
 				a, _ := strconv.ParseUint(f[2], 10, 64)
 				ns, _ := strconv.ParseInt(f[3], 10, 64)
-				results = append(results, result{out: f[5], alloc: a, ns: ns, same: f[4] == "1"})
+				rm, _ := strconv.Atoi(f[5])
+				results = append(results, result{out: f[6], alloc: a, ns: ns, same: f[4] == "1", remeas: rm})
 			}
 		}
 		f.Close()
@@ -220,15 +223,19 @@ func allocBound(n int) uint64 {
 }
 
 var digitRun = regexp.MustCompile(`[0-9]{1,19}`)
+
+// a decimal run in size-hint position: after '[' (white space allowed) or after the two bytes the
+// parser skips for ".." (a dot and any byte)
+var hintRun = regexp.MustCompile(`(?s)(?:\[[ \t\r\n]*|\..)([0-9]{1,19})`)
 var quoteWsEOF = regexp.MustCompile(`["'][ \t\r\n]*$`)
 
 // classTags describes the input shape with respect to the three known defect classes, computed
-// from the bytes alone (no parser): a decimal run whose value exceeds the input length, '<'
+// from the bytes alone (no parser): a decimal run in size-hint position whose value exceeds the input length, '<'
 // nesting deeper than secs2.MaxListDepth, a quote followed only by white space up to the end.
 func classTags(input string) string {
 	var tags []string
-	for _, m := range digitRun.FindAllString(input, -1) {
-		if v, err := strconv.ParseUint(m, 10, 64); err == nil && v > uint64(len(input)) {
+	for _, sm := range hintRun.FindAllStringSubmatch(input, -1) {
+		if v, err := strconv.ParseUint(sm[1], 10, 64); err == nil && v > uint64(len(input)) {
 			tags = append(tags, "hint>len")
 			break
 		}
@@ -355,6 +362,15 @@ func emit(c *vh.Ctx, k kase, r result, lim limits) {
 	c.Count("class/" + k.class)
 	c.Count("outcome/" + kind + map[bool]string{false: "/nonstrict", true: "/strict"}[k.strict])
 	c.Count("entry/" + string(k.entry))
+	if r.remeas > 0 {
+		c.Count("alloc/cases-remeasured")
+		c.Sum.Histogram["alloc/remeasure-calls"] += r.remeas
+		if r.alloc <= allocBound(len(k.input)) {
+			c.Count("alloc/remeasured-under-bound")
+		} else {
+			c.Count("alloc/remeasured-still-over-bound")
+		}
+	}
 }
 
 func main() {
